@@ -19,7 +19,7 @@ SHRINK = {"quick": False, "thorough": True}
 RULE = (
     "case = flow back-end (zuko, flowjax 1 in 8) x bounded transform (logit, probit, off) x affine (on, off) x width x dims in {1,2} "
     "x generated bounds x generated training set (mixture placed anywhere in the box, incl. hugging a bound; spread > 0 in every "
-    "dimension) x state (untrained with fitted data transform, trained 1-25 epochs) x construction route (FlowTransform handed to the "
+    "dimension) x state (untrained with fitted data transform, trained 1-25 epochs, optionally fitted before on data of another scale) x construction route (FlowTransform handed to the "
     "flow class, or Aspire.init_flow / fit wiring) x non-default flow options. Oracles: (a) quadrature of exp(log_prob) over the whole "
     "support must be 1 within 5e-3 - for bounded parameters by substitution through the harness's own float64 logit / probit map, "
     "on a grid of 4001 points (1-D) or 201x201 (2-D) spanning +-12 standard deviations of the mapped training data; (b) log q "
@@ -51,6 +51,8 @@ def _case(draw):
         "n_train": draw(st.sampled_from([48, 96])), "epochs": draw(st.sampled_from([0, 1, 3, 25])),
         "route": draw(st.sampled_from(["direct", "direct", "aspire"])), "options": draw(st.sampled_from(["default", "nondefault"])),
         "seed": draw(st.integers(0, 10**6)),
+        # history: the same flow object may have been fitted before on data of another scale
+        "prefit": draw(st.sampled_from([None, None, 0.2, 3.0])),
     }
 
 
@@ -70,6 +72,18 @@ def _train_data(case):
     if case["bounded"]:
         u = np.clip(u, 1e-3, 1 - 1e-3)
     return lo + w * u
+
+
+def _other(case, data):
+    """the same points shrunk / stretched about the box centre: training data of another scale (kept inside the box)"""
+    lo = np.array(case["lower"], dtype=float)
+    w = np.array(case["w"], dtype=float)
+    mid = lo + 0.5 * w
+    dev = (data - mid) * case["prefit"]
+    if case["bounded"]:
+        # stay inside the box without collapsing the spread: shrink uniformly if the stretched set would leave it
+        dev = dev * np.minimum(1.0, 0.49 * w / np.maximum(np.abs(dev).max(0), 1e-300))
+    return mid + dev
 
 
 def _to_y(case, x):
@@ -123,7 +137,7 @@ def _axis(lo_, a, b, hi_, n_mid, n_side):
     return np.concatenate(xs), np.concatenate(ws)
 
 
-def _integral(case, flow, data):
+def _integral(case, flow, data, span=None):
     """quadrature of exp(log_prob) over the support, by substitution x = x(y).
 
     The grid is fine around the mapped training data (+-12 sd: where a trained flow puts its mass) and also
@@ -139,6 +153,8 @@ def _integral(case, flow, data):
     for i in range(d):
         a, b = m[i] - 12 * s[i], m[i] + 12 * s[i]
         L, R = min(a, -12.0), max(b, 12.0)
+        if span is not None:  # where the flow itself puts its draws (an untrained, un-whitened flow can be much wider than the data)
+            L, R = min(L, span[0][i]), max(R, span[1][i])
         if lim is not None:
             a, b, L, R = max(a, -lim), min(b, lim), max(L, -lim), min(R, lim)
         t, wt = _axis(L, a, b, R, n_mid, n_side)
@@ -193,15 +209,21 @@ def _build(case):
                    xp=xp, dtype=case["width"], **kw)
         # affine on/off is not exposed by Aspire: its wiring always whitens
         if case["epochs"] > 0:
+            if case.get("prefit"):
+                a.fit(Samples(_other(case, data), xp=xp, dtype=case["width"]), **dict(fit_kw, **({"n_epochs": 1} if backend == "zuko" else {"max_epochs": 1})))
             a.fit(Samples(data, xp=xp, dtype=case["width"]), **fit_kw)
         else:
             a.init_flow()
+            if case.get("prefit"):
+                a.flow.fit_data_transform(a.flow.xp.asarray(_other(case, data), dtype=a.flow.dtype))
             a.flow.fit_data_transform(a.flow.xp.asarray(data, dtype=a.flow.dtype))
         return a, a.flow, data
     Flow, fxp = get_flow_wrapper(backend)
     dtf = FlowTransform(parameters=params, prior_bounds=bounds, bounded_to_unbounded=bool(case["bounded"]),
                         bounded_transform=case["bounded"] or "logit", affine_transform=case["affine"], xp=fxp, dtype=case["width"])
     f = Flow(dims=d, data_transform=dtf, dtype=case["width"], **kw)
+    if case.get("prefit"):
+        f.fit_data_transform(fxp.asarray(_other(case, data), dtype=f.dtype))
     if case["epochs"] > 0:
         f.fit(data, **fit_kw)
     else:
@@ -222,15 +244,20 @@ def run_case(case, ctx):
     # mass the flow puts inside the documented clipping margin next to a bound (estimated from its own draws): there the
     # evaluated density is that of the clipped point, so that mass is legitimately missing from the integral
     f_clip, n_mc = 0.0, 4000
+    xs, _ = flow.sample_and_log_prob(n_mc)
+    xs = env.to_np(xs).astype(np.float64)
     if case["bounded"]:
-        xs, _ = flow.sample_and_log_prob(n_mc)
-        us = (env.to_np(xs).astype(np.float64) - lo) / (hi - lo)
-        ys = _to_y(case, np.clip(env.to_np(xs).astype(np.float64), lo + 1e-300, hi))
+        ys = _to_y(case, np.clip(xs, lo + 1e-300, hi))
         lim = _lim(case)
         with np.errstate(all="ignore"):
             f_clip = float(np.mean((np.abs(ys) > lim).any(-1) | ~np.isfinite(ys).all(-1)))
+    else:
+        ys = xs
+    yf = np.where(np.isfinite(ys), ys, np.nan)
+    rng_ = np.nanmax(yf, axis=0) - np.nanmin(yf, axis=0)
+    span = (np.nanmin(yf, axis=0) - 0.5 * rng_, np.nanmax(yf, axis=0) + 0.5 * rng_)
     slack = 5e-3 + 5 * math.sqrt(max(f_clip * (1 - f_clip), 1.0 / n_mc) / n_mc) if f_clip > 0 else 5e-3
-    total = _integral(case, flow, data)
+    total = _integral(case, flow, data, span)
     if not math.isfinite(total) or abs(total - (1.0 - f_clip)) > slack:
         ctx.fail("normalisation", f"exp(log_prob) integrates to {total:.6f} over the support; expected {1 - f_clip:.6f} "
                                   f"(1 minus the {f_clip:.4f} of its mass the flow places inside the clipping margin) +- {slack:.4f} "
@@ -277,7 +304,7 @@ def run_case(case, ctx):
         if (ok & (np.abs(lp2 - lp) > 1e-6 * (1 + np.abs(lp)))).any():
             j = int(np.argmax(np.abs(lp2 - lp) * ok))
             ctx.fail("reload-changes-density", f"log_prob after save/load is {lp2[j]:.8g}, before {lp[j]:.8g}", case)
-        total2 = _integral(case, r, data)
+        total2 = _integral(case, r, data, span)
         if not math.isfinite(total2) or abs(total2 - total) > 1e-4:
             ctx.fail("normalisation-after-reload", f"reloaded proposal integrates to {total2:.6f}", case, integral=total2)
     finally:
